@@ -27,6 +27,15 @@ inductive Instr
   | JB (l : String)
   | JBE (l : String)
   | ANDQi (imm : Nat) (dst : Reg)
+  | ORLi (imm : Nat) (dst : Reg)          -- 32-bit OR, zero-extends
+  | MOVD (src : Reg) (dst : XReg)         -- low 32 bits into lanes 0..3, rest cleared
+  | MOVQrx (src : Reg) (dst : XReg)       -- 64 bits into lanes 0..7, rest cleared
+  | PUNPCKLBW (src dst : XReg)
+  | PSHUFL (imm : Nat) (src dst : XReg)
+  | CMPQi (a : Reg) (imm : Nat)           -- CMPQ a, $imm
+  | JLT (l : String) | JA (l : String) | JNE (l : String)
+  | CMPBavx2                              -- CMPB ·X86.HasAVX2, $1
+  | STUCK                                 -- an instruction outside the modelled subset
   | MOVOU (disp : Int) (base : Reg) (idx : Option Reg) (dst : XReg)
   | POR (src dst : XReg)
   | PAND (src dst : XReg)
@@ -56,6 +65,8 @@ structure St where
   x : XReg → Nat → UInt8
   zf : Bool
   cf : Bool
+  lt : Bool            -- signed "less" of the last compare (SF ≠ OF); only compares update it
+  avx2 : Bool          -- the CPU feature flag the kernels test
   mem : Nat → UInt8
   loads : List (Nat × Nat)
   out : Option Int
@@ -87,7 +98,10 @@ def cntBits (v : Nat) : Nat → Nat → Nat
 def addr (s : St) (disp : Int) (base : Reg) (idx : Option Reg) : Nat :=
   (s.r base + (match idx with | some i => s.r i | none => 0) + dispN disp) % W64
 
-/-- one instruction; `none` = `RET`, `some (st, jump target)` otherwise -/
+/-- a 64-bit value as a signed integer -/
+def sgn (v : Nat) : Int := if v < 2 ^ 63 then (v : Int) else (v : Int) - (W64 : Int)
+
+/-- one instruction; `none` = `RET` (or stuck), `some (st, jump target)` otherwise -/
 def step (s : St) : Instr → Option (St × Option String)
   | .TESTQ a b => let v := s.r a &&& s.r b; some ({ s with zf := v == 0, cf := false }, none)
   | .TESTW imm r => let v := (imm &&& s.r r) % 65536; some ({ s with zf := v == 0, cf := false }, none)
@@ -95,10 +109,22 @@ def step (s : St) : Instr → Option (St × Option String)
   | .LEAQx d b i dst => some (setR s dst (addr s d b (some i)), none)
   | .ADDQi imm dst => let v := (s.r dst + imm % W64) % W64; some ({ setR s dst v with zf := v == 0 }, none)
   | .ADDQ src dst => let v := (s.r dst + s.r src) % W64; some ({ setR s dst v with zf := v == 0 }, none)
-  | .CMPQ a b => some ({ s with zf := s.r a == s.r b, cf := decide (s.r a < s.r b) }, none)
+  | .CMPQ a b => some ({ s with zf := s.r a == s.r b, cf := decide (s.r a < s.r b), lt := decide (sgn (s.r a) < sgn (s.r b)) }, none)
   | .MOVQrr src dst => some (setR s dst (s.r src), none)
   | .JB l => some (s, if s.cf then some l else none)
   | .JBE l => some (s, if s.cf || s.zf then some l else none)
+  | .ORLi imm dst => some (setR s dst ((s.r dst % W32) ||| (imm % W32)), none)
+  | .MOVD src dst => some (setX s dst (fun j => if j < 4 then UInt8.ofNat (s.r src / 256 ^ j % 256) else 0), none)
+  | .MOVQrx src dst => some (setX s dst (fun j => if j < 8 then UInt8.ofNat (s.r src / 256 ^ j % 256) else 0), none)
+  | .PUNPCKLBW src dst => some (setX s dst (fun j => if j % 2 = 0 then s.x dst (j / 2) else s.x src (j / 2)), none)
+  | .PSHUFL imm src dst => some (setX s dst (fun j => s.x src (4 * (imm / 4 ^ (j / 4 % 4) % 4) + j % 4)), none)
+  | .CMPQi a imm => some ({ s with zf := s.r a == imm % W64, cf := decide (s.r a < imm % W64),
+                                   lt := decide (sgn (s.r a) < sgn (imm % W64)) }, none)
+  | .JLT l => some (s, if s.lt then some l else none)
+  | .JA l => some (s, if s.cf || s.zf then none else some l)
+  | .JNE l => some (s, if s.zf then none else some l)
+  | .CMPBavx2 => some ({ s with zf := s.avx2, cf := false }, none)
+  | .STUCK => none
   | .ANDQi imm dst => let v := s.r dst &&& imm; some ({ setR s dst v with zf := v == 0, cf := false }, none)
   | .MOVOU d b i dst =>
     let a := addr s d b i
